@@ -68,6 +68,10 @@ pub struct CallFrame {
     /// How many iterations a loop has done.
     pub(crate) loop_iteration_count: u64,
 
+    /// The completion value (accumulator) of the calling frame at the time of the call, given
+    /// back when this frame is popped: a call must not change the caller's completion value.
+    pub(crate) caller_return_value: JsValue,
+
     /// `[[ScriptOrModule]]`
     pub(crate) active_runnable: Option<ActiveRunnable>,
 
@@ -151,6 +155,7 @@ impl CallFrame {
             binding_stack: ThinVec::new(),
             code_block,
             loop_iteration_count: 0,
+            caller_return_value: JsValue::undefined(),
             active_runnable,
             environments,
             realm,
